@@ -27,8 +27,13 @@ def main():
     t0 = time.time()
     if args.replay:
         return P.replay(pid, args.replay)
-    lean = common.lean_obligations(pid)
     ctx = P.Ctx(pid, tier, seed)
+    if pid in P.PRE:   # source-regenerated model parts (T-src) are rewritten before the proofs are re-checked
+        try:
+            P.PRE[pid](ctx)
+        except Exception as e:
+            ctx.tie_broken("T-src", {"error": str(e)[-2000:]})
+    lean = common.lean_obligations(pid)
     try:
         P.CHECKS[pid](ctx)
     except Exception as e:  # a broken runner is a broken tie, reported as such
